@@ -115,7 +115,8 @@ def matches(got, want, fl, overlap=False):
         for q in '"\'':
             if len(g) >= 2 and g[0] == q and g[-1] == q and base(inner(g), w, fl): return True
         for q in '"\'':
-            if len(w) >= 2 and w[0] == q and w[-1] == q and base(inner(w), g, fl): return True
+            # the want stays the pattern when it is the want whose quotes are ignored (finding F51)
+            if len(w) >= 2 and w[0] == q and w[-1] == q and base(g, inner(w), fl): return True
     return False
 def matches3(got, want, fl):
     """True / False, or None where the two readings of "string-prefix letter" disagree (not judged)"""
